@@ -95,6 +95,9 @@ var c15Comments = []struct{ body, nonspace string }{
 	{"http://x.y/z", "http://x.y/z"}, {"a//b", "a//b"}, {"<a href=\"http://x\">l</a> // c", "<ahref=\"http://x\">l</a>"}, {"a\t// c\nb", "ab"},
 	{"a /* // */ b", "ab"}, {"a // /* c\nb", "ab"}, {"a /** doc-like */ b", "ab"}, {"x:// y", "x://y"}, {"a\n  // c1\n  // c2\nb", "ab"},
 	{"{if $ij.x}// c\na{/if}", "//ca"}, {"{if $ij.x} // c\na{/if}", "a"}, {"{if $ij.x}a // c\n{/if}", "a"}, {"a /* c */", "a"}, {"a // c", "a"}, {"a /* 1 */ b /* 2 */ c", "abc"},
+	// letters whose UTF-8 encoding ends in a byte that is a space in Latin-1 (0xA0, 0x85) are letters: // after them is text
+	{"voil\u00e0//x", "voil\u00e0//x"}, {"\u0160//y z", "\u0160//yz"}, {"\u4e05//k", "\u4e05//k"}, {"\u0405// k", "\u0405//k"}, {"\u00e0/* c */b", "\u00e0b"}, {"x \u00e0 // c\nb", "x\u00e0b"},
+	{"\u00e0//", "\u00e0//"}, {"a\u4e05//b // c", "a\u4e05//b"},
 }
 
 func stripSpace(s string) string {
@@ -115,7 +118,7 @@ func init() {
 		ID:    "C15",
 		Level: "exploration",
 		Rule: "exhaustive: every string of length <= 6 (thorough 8) over {a < > space tab CR LF é} as a text run, neighbour pair rotating over 18 left x 12 right neighbour kinds (five / two of them blocks that are not rendered and begin or end with a comment); every string of " +
-			"length <= 4 (thorough 5) between every neighbour pair; seeded longer runs with 中 and 😀; 25 comment placements (output compared modulo whitespace). " +
+			"length <= 4 (thorough 5) between every neighbour pair; seeded longer runs with 中 and 😀; 34 comment placements (output compared modulo whitespace). " +
 			"Oracle: the line-joining rule (ref.RawText). A case is a batch of 200 templates compiled together. distinct = distinct (text run, neighbour pair); non-trivial = run contains whitespace",
 		N: func(tier string) int {
 			ex, pf, rnd := c15Sizes(tier)
@@ -205,7 +208,7 @@ func init() {
 			case i == nEx+nPf:
 				commentsOnly = true
 			default:
-				alpha := append(append([]string{}, c15Alphabet...), "中", "😀", "b", "\n", "\n  ", " ")
+				alpha := append(append([]string{}, c15Alphabet...), "中", "😀", "\u00e0", "\u4e05", "\u0160", "b", "\n", "\n  ", " ")
 				for k := 0; k < c15Batch; k++ {
 					n := 6 + ctx.Rng.Intn(20)
 					var b strings.Builder
